@@ -75,7 +75,7 @@ type zzvFKWriter struct {
 }
 
 func (w *zzvFKWriter) WriteStreamData(identity.AgentID, uint64, []byte, uint8) error { return nil }
-func (w *zzvFKWriter) WriteStreamClose(identity.AgentID, uint64) error              { return nil }
+func (w *zzvFKWriter) WriteStreamClose(identity.AgentID, uint64) error               { return nil }
 func (w *zzvFKWriter) WriteStreamOpenAck(_ identity.AgentID, sid uint64, _ uint64, _ net.IP, _ uint16, _ [crypto.KeySize]byte) error {
 	w.mu.Lock()
 	w.replies[sid] = zzvFKReply{ack: true}
